@@ -40,7 +40,10 @@ DENY = [
     "rand::rng", "rand::random", "rand::thread_rng", "rand::rngs::ThreadRng", "getrandom::", "std::fs::read_dir", "<*const T as std::fmt::Pointer>::fmt",
     "std::env::args", "std::env::current_dir", "std::env::temp_dir", "rand::rngs::OsRng", "rand::SeedableRng::from_os_rng", "rand::SeedableRng::from_entropy",
     "rand::SeedableRng::try_from_os_rng", "rand::SeedableRng::from_rng", "std::time::SystemTime::elapsed", "std::time::Instant::elapsed",
+    # how much of the input a single read delivers depends on the pipe / scheduler, not on the input: a decision taken on
+    # "what has arrived so far" differs between runs on the same bytes (the XML reader consumes these itself, inside quick-xml)
 ]
+DENY_EXACT = ["std::io::BufRead::fill_buf", "std::io::Read::read", "std::io::Read::read_vectored", "std::io::BufRead::has_data_left"]
 
 # transform-path functions are everything outside the CLI/server front-ends; the front-ends legitimately read args etc.
 FRONTEND_PREFIX = ("svgdx::cli::", "svgdx::server::", "svgdx_server::", "svgdx::main", "<svgdx::cli::", "<svgdx::server::", "<svgdx_server::")
@@ -401,7 +404,7 @@ def debug_of_hash(prog, chk):
 def deny_list(prog, chk):
     hits = 0
     for body in prog.bodies.values():
-        for (bb, t, c) in body.call_sites(lambda c: any(c.path.startswith(d) or c.decl_path.startswith(d) for d in DENY)):
+        for (bb, t, c) in body.call_sites(lambda c: any(c.path.startswith(d) or c.decl_path.startswith(d) for d in DENY) or c.decl_path in DENY_EXACT or c.path in DENY_EXACT):
             where = body.where(bb, t.get("line"))
             if body.path.startswith(FRONTEND_PREFIX):
                 # front-ends read their own arguments/environment; not part of a transform
